@@ -51,10 +51,10 @@ Proof. exact graph_by_subject. Qed.
 Print Assumptions C17_graph_by_subject.
 
 (* Inline = false (UseAnonResource on or off): the export flattens back to exactly the input triples *)
-Theorem C17_export_flatten_noinline_partial : forall g pinned o,
+Theorem C17_export_flatten_noinline : forall g pinned o,
   inline o = false -> Permutation (flatten (export g pinned o)) g.
 Proof. exact export_flatten_noinline. Qed.
-Print Assumptions C17_export_flatten_noinline_partial.
+Print Assumptions C17_export_flatten_noinline.
 
 (* only blank nodes with exactly one reference that are not pinned are ever nested *)
 Theorem C17_inlined_single_ref : forall g pinned b,
